@@ -67,7 +67,7 @@ package reconciledloader
 
 //@ func remoteQueue.clear
 //@   requires allGood() && qinv(rq)
-//@   modifies rq.head, rq.lastConsumed, rq.dataSize, remotedLinkedItem.remoteItem
+//@   modifies rq.head, rq.tail, rq.lastConsumed, rq.dataSize, remotedLinkedItem.remoteItem
 //@   loop 1 invariant allGood() && qinv(rq)
 //@   ensures allGood() && rq.head == nil && rq.lastConsumed == nil
 
